@@ -144,6 +144,16 @@ static void judge_step(Segment *seg, const Slot *t, const Rect &L, const Positio
 }
 
 // ---- pipeline monitor (H3 hooks)
+// Workload diversity: the shipped Awami fonts give every glyph a collision margin of 150..200 units, so shallow overlaps whose cheapest
+// escape is only a few units away never occur.  In a share of the pipeline cases the margin of every slot is overridden (as a font's
+// collision.margin attribute could set it) with a small value before each pass runs.
+static int g_margin_override = -1;
+extern "C" void gr_verif_pass_begin(const void *seg_, unsigned int, const void *) {
+    if (g_margin_override < 0) return;
+    Segment *seg = const_cast<Segment *>(static_cast<const Segment *>(seg_));
+    if (!seg->hasCollisionInfo()) return;
+    for (Slot *s = seg->first(); s; s = s->next()) if (SlotCollision *c = seg->collisionInfo(s)) c->setMargin(uint16(g_margin_override));
+}
 static std::vector<Nbr> g_nbrs;
 static const Slot *g_base = nullptr;
 static const Slot *g_target = nullptr;
@@ -289,8 +299,12 @@ int main(int argc, char **argv) {
                 for (int i = 0; i < n; ++i) t.push_back(r.chance(0.1) ? 0x20 : r.pick(ar.empty() ? rep : ar));
             }
             int dir = dirs[r.below(8)];
+            static const int small_margins[] = {0, 1, 2, 4, 8, 20};
+            g_margin_override = r.chance(0.35) ? small_margins[r.below(6)] : -1;
             if (a.geti("fixdir", -1) >= 0 && !lines.empty()) { t = lines[size_t(k) % lines.size()]; dir = int(a.geti("fixdir", 1)); }    // witness replay
-            set_case(k, "pipeline font=%s dir=%d text=%s", fontpath.c_str(), dir, cps_str(t, 24).c_str());
+            if (a.geti("fixdir", -1) >= 0) g_margin_override = -1;
+            if (g_margin_override >= 0) st.add("segments_with_small_margin_override");
+            set_case(k, "pipeline font=%s dir=%d margin=%d text=%s", fontpath.c_str(), dir, g_margin_override, cps_str(t, 24).c_str());
             cpu_budget_ms(60000);
             Text tx;
             tx.set(gr_utf32, t, false);
